@@ -8,8 +8,8 @@ generate for a Rust type (the translator `xlate/gen_qevent.py` produces one `Sch
 
 What a schema constructor stands for (Rust side → JSON side):
 * `bool`, `int lo hi` (uN / iN: exact integer, range-checked when parsed), `flt` (f32/f64: opaque token; an integer
-  token is accepted as a float as serde does), `str`, `hex len` (`serde_with::hex::Hex`: a lower-case hex string,
-  `len` = fixed byte length of `[u8; n]`), `any` (`serde_json::Value`);
+  token is accepted as a float as serde does), `str`, `hex pfx len` (`serde_with::hex::Hex`: the fixed prefix `pfx` (empty for Hex) followed by a lower-case hex
+  string, `len` = fixed byte length of `[u8; n]`; `hex "crypto_error_0x1" (some 1)` is the hand-written CryptoError), `any` (`serde_json::Value`);
 * `opt s` (`Option<T>` in value position: `null` / the value), `seq s len` (`Vec<T>`, `[T; n]`), `map`
   (`HashMap<String, Value>`);
 * `struct fs rest`: named fields in declaration order; `rest = true` when the LAST field is a
@@ -44,7 +44,7 @@ inductive FKind where
 
 mutual
 inductive Schema where
-  | bool | int (lo hi : Int) | flt | str | hex (len : Option Nat) | any
+  | bool | int (lo hi : Int) | flt | str | hex (pfx : String) (len : Option Nat) | any
   | opt (s : Schema)
   | seq (s : Schema) (len : Option Nat)
   | map
@@ -87,8 +87,10 @@ def kindOf : Json → Nat
 
 def isHexChar (c : Char) : Bool := (c.isDigit) || (c.toNat ≥ 97 && c.toNat ≤ 102)
 
-def isHex (s : String) (len : Option Nat) : Bool :=
-  let cs := s.toList
+def isHex (pfx : String) (s : String) (len : Option Nat) : Bool :=
+  let ps := pfx.toList
+  let cs := s.toList.drop ps.length
+  s.toList.take ps.length == ps &&
   cs.all isHexChar && cs.length % 2 == 0 && (match len with | none => true | some n => cs.length == 2 * n)
 
 def lenOk (len : Option Nat) (n : Nat) : Bool :=
@@ -133,7 +135,7 @@ def altName : Fields → Nat → String
 /- which JSON kinds a value of the schema can serialise to (over-approximation); `de` rejects every other kind -/
 mutual
 def shape : Schema → List Nat
-  | .bool => [1] | .int _ _ => [2] | .flt => [2, 3] | .str => [4] | .hex _ => [4]
+  | .bool => [1] | .int _ _ => [2] | .flt => [2, 3] | .str => [4] | .hex _ _ => [4]
   | .any => [0, 1, 2, 3, 4, 5, 6]
   | .opt s => 0 :: shape s
   | .seq _ _ => [5]
@@ -165,7 +167,7 @@ def ser : Schema → Val → Json
   | .int _ _, v => (match v with | .int n => .int n | _ => .null)
   | .flt, v => (match v with | .flt t => .flt t | _ => .null)
   | .str, v => (match v with | .str s => .str s | _ => .null)
-  | .hex _, v => (match v with | .str s => .str s | _ => .null)
+  | .hex _ _, v => (match v with | .str s => .str s | _ => .null)
   | .any, v => (match v with | .json j => j | _ => .null)
   | .opt s, v => (match v with | .some x => ser s x | _ => .null)
   | .seq s _, v => (match v with | .list vs => .arr (vs.map (ser s)) | _ => .null)
@@ -204,7 +206,7 @@ def de : Schema → Json → Option Val
   | .int lo hi, j => (match j with | .int n => if lo ≤ n ∧ n ≤ hi then some (.int n) else none | _ => none)
   | .flt, j => (match j with | .flt t => some (.flt t) | .int n => some (.flt (intTok n)) | _ => none)
   | .str, j => (match j with | .str s => some (.str s) | _ => none)
-  | .hex len, j => (match j with | .str s => if isHex s len then some (.str s) else none | _ => none)
+  | .hex pfx len, j => (match j with | .str s => if isHex pfx s len then some (.str s) else none | _ => none)
   | .any, j => some (.json j)
   | .opt s, j => (match j with | .null => some .none | j => optOf (de s j))
   | .seq s len, j =>
@@ -279,7 +281,7 @@ def hasType : Schema → Val → Bool
   | .int lo hi, v => (match v with | .int n => decide (lo ≤ n ∧ n ≤ hi) | _ => false)
   | .flt, v => (match v with | .flt _ => true | _ => false)
   | .str, v => (match v with | .str _ => true | _ => false)
-  | .hex len, v => (match v with | .str s => isHex s len | _ => false)
+  | .hex pfx len, v => (match v with | .str s => isHex pfx s len | _ => false)
   | .any, v => (match v with | .json _ => true | _ => false)
   | .opt s, v => (match v with | .none => true | .some x => hasType s x | _ => false)
   | .seq s len, v => (match v with | .list vs => vs.all (hasType s) && lenOk len vs.length | _ => false)
@@ -329,7 +331,7 @@ def disjointN (a b : List Nat) : Bool := a.all (fun x => !b.contains x)
 
 mutual
 def wf : Schema → Bool
-  | .bool => true | .int _ _ => true | .flt => true | .str => true | .hex _ => true | .any => true | .map => true
+  | .bool => true | .int _ _ => true | .flt => true | .str => true | .hex _ _ => true | .any => true | .map => true
   | .opt s => wf s && !(shape s).contains 0
   | .seq s _ => wf s
   | .struct fs _ => wfFields fs && decide (allNames fs).Nodup
